@@ -654,6 +654,11 @@ fn spawn_async_ao_list_in_task'''),
         ('plain-operator-strips-tabs', 'brush-parser/src/parser/peg.rs', "                    remove_tabs: false,", "                    remove_tabs: true,"),
         ('backslash-in-the-delimiter-does-not-count-as-quoting', 'brush-parser/src/parser/peg.rs', [("specific_operator(\"<<\") here_tag:here_tag() doc:[_] closing_tag:here_tag() {\n                let requires_expansion = !here_tag.to_str().contains(['\\'', '\"', '\\\\']);", "specific_operator(\"<<\") here_tag:here_tag() doc:[_] closing_tag:here_tag() {\n                let requires_expansion = !here_tag.to_str().contains(['\\'', '\"', '\"']);")]),
     ],
+    'U64': [
+        ('keys-of-an-array-literal-transformed-too', 'brush-core/src/variables.rs', ".map(|(k, v)| (k, self.convert_value_str_for_assignment(v)))", ".map(|(k, v)| (k.map(|k| self.convert_value_str_for_assignment(k)), self.convert_value_str_for_assignment(v)))"),
+        ('values-of-an-array-literal-not-transformed', 'brush-core/src/variables.rs', ".map(|(k, v)| (k, self.convert_value_str_for_assignment(v)))", ".map(|(k, v)| (k, v))"),
+        ('scalar-transformed-as-a-string-whatever-the-integer-attribute', 'brush-core/src/variables.rs', "            &mut s,\n            self.is_treated_as_integer(),\n            self.get_update_transform(),", "            &mut s,\n            false,\n            self.get_update_transform(),"),
+    ],
     'U63': [
         ('backslash-no-longer-leaves-the-quick-path-in-a-here-document', 'brush-core/src/expansion.rs', "            &['$', '`', '\\\\']\n        } else {", "            &['$', '`']\n        } else {"),
         ('tilde-no-longer-leaves-the-quick-path', 'brush-core/src/expansion.rs', "            &['$', '`', '\\\\', '\\'', '\\\"', '~', '{']", "            &['$', '`', '\\\\', '\\'', '\\\"', '{']"),
